@@ -738,6 +738,7 @@ type modSet struct {
 	sites map[string][]ssa.Value // direct stores: the object / slice / map operand per component
 	opaque bool // contains a call with unknown heap effects
 	caches bool // contains a call that may fill the Typ / Successors caches
+	observer bool // contains an observer call that may also write ID fields
 }
 
 func (fx *FnExec) rootAlloc(v ssa.Value) *ssa.Alloc {
@@ -770,6 +771,9 @@ func (fx *FnExec) loopModSet(li *loopInfo) *modSet {
 			}
 			if tmp.caches {
 				ms.caches = true
+			}
+			if tmp.observer {
+				ms.observer = true
 			}
 			var site ssa.Value
 			fresh := false
@@ -1204,7 +1208,10 @@ func (fx *FnExec) loopHead(li *loopInfo, st *State) {
 		}
 		st.heap[h] = nv
 	}
-	if ms.caches && !ms.opaque {
+	if ms.observer && !ms.opaque {
+		fx.opaqueTargets = nil
+		fx.observerHavoc(st)
+	} else if ms.caches && !ms.opaque {
 		fx.opaqueTargets = []*ssa.Function{}
 		fx.observerHavoc(st)
 	}
